@@ -1333,7 +1333,15 @@ class RecordSerializer(TypeSerializer[T, np.void]):
         )
 
     def read_numpy(self, stream: CodedInputStream) -> np.void:
-        return cast(np.void, self._read(stream))
+        # an element of a structured array: nested records, optionals etc. are
+        # read in their numpy representation, too
+        return cast(
+            np.void,
+            tuple(
+                serializer.read_numpy(stream)
+                for _, serializer in self._field_serializers
+            ),
+        )
 
 
 # Only used in the header
